@@ -390,3 +390,63 @@ Example one_spine_example :
 *-
 "%string.
 Proof. vm_compute. reflexivity. Qed.
+
+(* ---- canonical rests and chords, and tokens exported verbatim, are cells in normal form too *)
+From KV Require Import RestProofs RestFixedProofs ChordProofs ChordFixedProofs TokenProofs.
+
+Lemma digit_head_normal bad c r t : is_digit c = true -> mem_str (String c r) bad = false ->
+  kern_recognise (String c r) = KTok t -> match t with THeader _ _ => False | _ => True end -> tok_hidden t = false ->
+  kern_tokenize all_cats t = Ok (String c r) -> normal_cell bad (String c r).
+Proof.
+  intros Hd Hb Hk Hnh Hhid Hx. destruct (head_not_special c (or_introl Hd)) as [H1 [H2 H3]].
+  split; [apply first_char_plain; assumption|]. exists t. split; [apply import_cell_kern; [discriminate | exact Hb | exact Hk]|].
+  repeat split; try assumption. unfold nullish_tokens. cbn [mem_str String.eqb]. rewrite H2, H3. destruct r; reflexivity.
+Qed.
+
+Theorem canonical_rest_is_normal bad r : rest_ok r -> rest_canonical_order r -> mem_str (str (print_rest r)) bad = false ->
+  normal_cell bad (str (print_rest r)).
+Proof.
+  intros Hok Hc Hb. pose proof Hok as [Hdur _]. destruct (print_dur_head _ Hdur) as [c [cs [Ex Hd]]].
+  assert (Es : str (print_rest r) = String c (str (cs ++ "r"%char :: rs_decos r))).
+  { unfold print_rest. rewrite Ex. reflexivity. }
+  rewrite Es in *. apply (digit_head_normal bad c _ (rest_token r) Hd Hb).
+  - rewrite <- Es. apply recognise_print_rest. exact Hok.
+  - exact I.
+  - reflexivity.
+  - rewrite <- Es. apply kern_export_canonical_rest; assumption.
+Qed.
+
+Theorem canonical_chord_is_normal bad D notes : 2 <= List.length notes -> chord_ok D notes -> Forall canonical_order notes ->
+  mem_str (str (print_chord notes)) bad = false -> normal_cell bad (str (print_chord notes)).
+Proof.
+  intros Hlen Hok Hc Hb. assert (Hne : notes <> []) by (intros ->; simpl in Hlen; lia).
+  destruct (print_chord_head D notes Hne Hok) as [c [r [E Hd]]].
+  assert (Es : str (print_chord notes) = String c (str r)) by (rewrite E; reflexivity).
+  rewrite Es in *. apply (digit_head_normal bad c _ (TChord (String c (str r)) (map (chord_note D) notes)) Hd Hb).
+  - rewrite <- Es. apply recognise_print_chord; assumption.
+  - exact I.
+  - reflexivity.
+  - rewrite <- Es. apply kern_export_canonical_chord; assumption.
+Qed.
+
+(* any cell the recogniser keeps as ONE simple token carrying the cell text (interpretations, ...) *)
+Theorem verbatim_cell_is_normal bad c k cls : plain_cell c -> c <> ""%string -> mem_str c bad = false ->
+  kern_recognise c = KTok (TSimple c k cls) -> strip_separators c = c -> mem_str c nullish_tokens = false ->
+  normal_cell bad c.
+Proof.
+  intros Hp Hne Hb Hk Hs Hn. split; [exact Hp|]. exists (TSimple c k cls). split; [apply import_cell_kern; assumption|].
+  repeat split; try assumption. unfold kern_tokenize, ekern_tokenize. cbn [export_token map_res tok_enc]. now rewrite Hs.
+Qed.
+
+Example mixed_document_cells_are_normal :
+  Forall (normal_cell []) ["*clefG2"; "*M4/4"; "4c;L"; "8.dd#"]%string.
+Proof.
+  assert (V : forall c k cls, plain_cell c -> c <> ""%string -> kern_recognise c = KTok (TSimple c k cls) -> strip_separators c = c ->
+              mem_str c nullish_tokens = false -> normal_cell [] c)
+    by (intros; eapply verbatim_cell_is_normal; try eassumption; reflexivity).
+  apply Forall_cons; [eapply (V "*clefG2"%string); try reflexivity; try discriminate; repeat split|].
+  apply Forall_cons; [eapply (V "*M4/4"%string); try reflexivity; try discriminate; repeat split|].
+  apply Forall_cons; [split; [repeat split|]; eexists; split; [vm_compute; reflexivity|]; repeat split|].
+  apply Forall_cons; [split; [repeat split|]; eexists; split; [vm_compute; reflexivity|]; repeat split|].
+  apply Forall_nil.
+Qed.
